@@ -209,16 +209,49 @@ def run(repo: Repo, rep: Report) -> None:
         c = calls[0]
         p = f.args.args[1].arg
         a = c.args
-        ok1 = len(a) == 3 and norm(a[1]) == p + ".start"
+
+        def unclamp(e):
+            """X of min(X, <a bound that does not depend on the slice>): islice() takes no int above sys.maxsize, clamping there changes no slice"""
+            if isinstance(e, ast.Call) and norm(e.func) == "min" and len(e.args) == 2:
+                dep = [x for x in e.args if p + "." in norm(x)]
+                if len(dep) == 1:
+                    return dep[0]
+            return e
+
+        def defs(e):
+            """the expressions a bound can hold, each with the test it is assigned under (None: unconditionally)"""
+            if not isinstance(e, ast.Name):
+                return [(e, None)]
+            out = []
+            for st in own_nodes(f):
+                if isinstance(st, ast.Assign) and norm(st.targets[0]) == e.id:
+                    par_ = ev.parent.get(id(st))
+                    out.append((st.value, par_.test if isinstance(par_, ast.If) and st in par_.body else None))
+            return out
+
+        def is_len_test(t):
+            return isinstance(t, ast.Compare) and isinstance(t.ops[0], ast.IsNot) and norm(t.left) == p + ".length" and isinstance(t.comparators[0], ast.Constant) and t.comparators[0].value is None
+
+        def is_sum(e):
+            e = unclamp(e)
+            return isinstance(e, ast.BinOp) and isinstance(e.op, ast.Add) and {norm(e.left), norm(e.right)} == {p + ".start", p + ".length"}
+
+        lo = defs(a[1]) if len(a) == 3 else []
+        ok1 = len(a) == 3 and len(lo) == 1 and lo[0][1] is None and norm(unclamp(lo[0][0])) == p + ".start"
         rep.ob("C08.d-slice-bounds", ev, "evalSlice", "lower bound %s" % (norm(a[1]) if len(a) > 1 else None), ok1, "" if ok1 else "lower bound is not %s.start" % p, node=c)
         ok2 = False
         ok3 = False
         if len(a) == 3 and isinstance(a[2], ast.IfExp):
             ie = a[2]
-            ok2 = isinstance(ie.body, ast.BinOp) and isinstance(ie.body.op, ast.Add) and {norm(ie.body.left), norm(ie.body.right)} == {p + ".start", p + ".length"} \
-                and isinstance(ie.orelse, ast.Constant) and ie.orelse.value is None
-            t = ie.test
-            ok3 = isinstance(t, ast.Compare) and isinstance(t.ops[0], ast.IsNot) and norm(t.left) == p + ".length" and isinstance(t.comparators[0], ast.Constant) and t.comparators[0].value is None
+            ok2 = is_sum(ie.body) and isinstance(ie.orelse, ast.Constant) and ie.orelse.value is None
+            ok3 = is_len_test(ie.test)
+        elif len(a) == 3 and isinstance(a[2], ast.Name):
+            # stop = None; if <p>.length is not None: stop = <p>.start + <p>.length
+            hi = defs(a[2])
+            nones = [d for d in hi if isinstance(d[0], ast.Constant) and d[0].value is None and d[1] is None]
+            sums = [d for d in hi if is_sum(d[0])]
+            ok2 = len(hi) == 2 and len(nones) == 1 and len(sums) == 1
+            ok3 = ok2 and sums[0][1] is not None and is_len_test(sums[0][1])
         rep.ob("C08.d-slice-bounds", ev, "evalSlice", "upper bound start + length", ok2, "" if ok2 else "upper bound is not %s.start + %s.length (else None)" % (p, p), node=c)
         rep.ob("C08.d-slice-bounds", ev, "evalSlice", "`length is not None` by identity", ok3, "" if ok3 else "presence of LIMIT is not tested with `is not None` (LIMIT 0 is falsy)", node=c)
 
